@@ -741,3 +741,45 @@ def _c16_write_settings(tier="quick", seed=0):
 
 _c16_before_settings = EXTRA_CHECKS["C16"]
 EXTRA_CHECKS["C16"] = (lambda tier="quick", seed=0: _c16_before_settings(tier, seed) + _c16_write_settings(tier, seed))
+
+
+# ---- C16: the book writers guard optional attributes before using them; the attribute guarded must be the attribute used
+def _replay_effects_roundtrip():
+    """replay END TO END: the tb program book with every coverage interaction set to 'random' is written and read back"""
+    import logging
+    import warnings
+
+    import atomica as at
+
+    warnings.filterwarnings("ignore")
+    at.logger.setLevel(logging.ERROR)
+    P = at.demo("tb", do_run=False)
+    ps = P.progsets[0].copy()
+    multi = [k for k, c in ps.covouts.items() if len(c.progs) >= 2]
+    for k in multi:
+        ps.covouts[k].cov_interaction = "random"
+    pre = dict(project="tb", covouts_set_to_random=len(multi))
+    try:
+        ps2 = at.ProgramSet.from_spreadsheet(ps.to_spreadsheet(), P.framework, P.data)
+    except Exception as e:  # noqa
+        return dict(verdict="violates", raised=type(e).__name__, detail="the program book cannot be written / read: %s: %s" % (type(e).__name__, str(e)[-160:]), prestate=pre)
+    lost = [k for k in multi if ps2.covouts[k].cov_interaction != "random"]
+    return dict(verdict="violates" if lost else "holds", detail=("%d of %d coverage interactions read back as %r instead of 'random'" % (len(lost), len(multi), ps2.covouts[lost[0]].cov_interaction)) if lost else "coverage interactions survive the round trip", prestate=pre)
+
+
+def _c16_guards(tier="quick", seed=0):
+    import ast
+
+    from pyvc import source
+
+    out = []
+    for mod in ("programs", "excel", "data", "parameters"):
+        m = source.load(mod)
+        names = list(m.functions.keys()) + ["%s.%s" % (c, f.name) for c, (node, _) in m.classes.items() for f in node.body if isinstance(f, ast.FunctionDef)]
+        for n in sorted(names):
+            out += flow.none_guard_matches_use("%s:%s" % (mod, n))
+    return _attach(out, "none-guard-matches-use", _replay_effects_roundtrip)
+
+
+_c16_before_guards = EXTRA_CHECKS["C16"]
+EXTRA_CHECKS["C16"] = (lambda tier="quick", seed=0: _c16_before_guards(tier, seed) + _c16_guards(tier, seed))
